@@ -183,3 +183,27 @@ func TestVF_C33_Witness(t *testing.T) {
 	defer st.Flush()
 	c33Witnesses(t, st, c33Mod, true, c33Exec)
 }
+
+// ---- module-specific hooks used by the shared real-lister / real-decoder legs ----------------
+
+func c33TestSetup(t *testing.T) {
+	log.SetOutput(io.Discard)
+	c33RenewEvery(t)
+}
+
+func c33ListerConfig(ns, endpoint string) config.Config {
+	return config.Config{
+		S3:        config.S3Config{Bucket: c33ListBucket, Namespace: ns, Endpoint: endpoint, Region: "us-east-1", PathStyle: true},
+		Discovery: config.DiscoveryConfig{Mode: "s3"},
+	}
+}
+
+func c33NewProcessor(l discovery.Lister, d decoder.Decoder, s checkpoint.Store, w sink.Writer) *Processor {
+	return &Processor{discover: l, decode: d, store: s, sink: w}
+}
+
+func c33DecoderConfig(endpoint string) config.Config {
+	return config.Config{S3: config.S3Config{Bucket: c33Bucket, Region: "us-east-1", Endpoint: endpoint, PathStyle: true}}
+}
+
+func c33SinkValue(r sink.Record) []byte { return r.Value }
